@@ -26,9 +26,12 @@ add('C05', _P, 'Lean 4 theorems on REGENERATED assembly programs (translator asm
     '(RV32I, RV32E, ARMv6, ARMv6-M, ARMv7-M, Xtensa windowed and call0, each x 128/192/256); RV64I and AVR5 are listed as not proved in the evidence.  The C back ends: TJ.Props.C05.c_backend_is_spec '
     '(hand model tied by direct permutation calls).  Generated .S files are compared byte for byte with the bundled generators\' output; back-end selection is unique per target (decided by execution).',
     'Partial: 6 of 27 assembly programs (RV64I, AVR5) have no theorem yet.  The ISA semantics (TJ.Asm.*) are this project\'s reading of the manuals, not validated by execution (no emulator in the sandbox). bv_decide axioms are enumerated in the evidence.', '5 C05')
-add('C06', 'exploration', 'guard pages, canaries, ASan/UBSan over an exhaustive length window (Lean theorem on the memory-level model: see level text)',
-    'Runtime property: exhaustive length window 0..40 plus block boundaries for every public function under guard pages, canaries and sanitizers, compared with the model\'s exact footprint.  '
-    'Lean part: TJ.Props.C06 (when present) proves the footprint of the memory-level model.', 'Machine-code behaviour is observed, not proved.', '5 C06')
+add('C06', _P, 'Lean 4 theorem (fault verdict of the regenerated source is independent of buffer contents) + exhaustive length window executed on the MiniC interpreter + guard pages, canaries, ASan/UBSan on the compiled code',
+    'TJ.Props.C06: in the MiniC semantics of the regenerated C source every out-of-range, misaligned or uninitialised access, NULL dereference, over-wide shift and division by zero is a fault, and whether a call '
+    'completes or faults (kind and position) is the same for ALL contents of the caller\'s buffers and state objects once lengths, pointers and alignments are fixed (safety_independent_of_contents, an instance of the '
+    'non-interference theorem).  The check executes every public function, including the incremental ones, on an exhaustive window of length tuples (each length 0..40 plus block boundaries, NULL with length 0, alignments) '
+    'on the MiniC interpreter with exact-size output blocks, so each executed shape is settled for every byte content; the same window runs on the compiled code (CMake Release and ASan/UBSan builds) under guard pages and canaries and is compared with the model.',
+    'Partial: universal in contents (theorem), bounded in lengths (window). Machine-code behaviour (optimised objects) is observed, not proved; signed overflow is left to UBSan (MiniC wraps).', '5 C06')
 add('C07', _P, 'Lean 4 non-interference theorem for the leakage semantics of the REGENERATED C source (translator c2lean.py) + per-shape execution of the secrecy monitor + valgrind on the optimised objects',
     'TJ.MiniC.NI.exec_rel / TJ.Props.C07: for the program regenerated from every function of src/*.c and src/backend/*.c, two calls whose inputs agree on everything public have the same leakage trace '
     '(every branch outcome, every address and size, every memcpy/memset triple, every indirect call target), the same outcome and publicly-equal results - for all arguments, memories, lengths and fuel. '
